@@ -7,6 +7,7 @@ import "gonum.org/v1/gonum/internal/verif/vlib"
 func main() {
 	installBLAS()
 	vlib.Main("C03",
+		vlib.Group{Name: "dlarft", Gen: genDlarft},
 		vlib.Group{Name: "dsyev", Gen: genDsyev},
 		vlib.Group{Name: "dsytrd", Gen: genDsytrd},
 		vlib.Group{Name: "dst-scaled", Gen: genDstScaled},
